@@ -79,7 +79,7 @@ def run(prop):
     binp = vlib.go_build("./c08", "c08")
     # conformance of the layout model: Fmt(p) in the canonical spelling = real formatter output for every spelling of p
     lpath0 = vlib.write_ndjson(os.path.join(sc, "fmt.ndjson"), [{"prog": p["prog"], "fmt": p["fmt"], "fmtl": p["fmtl"]} for p in chosen])
-    pl = vlib.run([binp, "layout", lpath0], check=False, timeout=3000)
+    pl = vlib.run([binp, "layout", lpath0], check=False, timeout=14400 if thorough else 3000)
     lay = vlib.harness_results(ck, pl)
     if lay["programs"] != len(chosen):
         raise vlib.InfraError("layout conformance processed %d of %d programs" % (lay["programs"], len(chosen)))
@@ -90,7 +90,7 @@ def run(prop):
         # not a verdict (the property is decided on the real formatter's output), but never silent: a drifting
         # model no longer binds the layout specification to the code
         sys.stderr.write("NOTE: layout model (FmtLayout.tla) and formatter disagree on %d of %d cases\n" % (lay["drift"], lay["cases"]))
-    p = vlib.run([binp, "progs", ppath], check=False, timeout=3000)
+    p = vlib.run([binp, "progs", ppath], check=False, timeout=14400 if thorough else 3000)
     nfail = {"C08": 0, "C09": 0}
     summary = None
     rejected = None
